@@ -364,7 +364,15 @@ pub fn generate_c15(run_seed: u64, thorough: bool, faults: bool) -> ListDesc {
     }
     let script_ok = |op: &Op| -> bool { !matches!(op, Op::IterConsume { .. } | Op::IterWithPush { .. } | Op::InnerPush { .. } | Op::FromVec { .. } | Op::CloneH { .. } | Op::DropH { .. } | Op::ToVec { .. } | Op::Iter { .. } | Op::Debug { .. }) };
     let rust_ok = |op: &Op| -> bool { !matches!(op, Op::FromVecScript { .. } | Op::ForRebind { .. } | Op::PlusAssign { .. } | Op::GetMove { .. } | Op::TmpGet { .. } | Op::BranchLit { .. } | Op::Lit9 { .. } | Op::Join { .. } | Op::ForCount { .. } | Op::ForSum { .. } | Op::ForPush { .. } | Op::ForFind { .. }) };
+    // "observe, mutate, observe again": after a query, sometimes one of its lists is changed and
+    // the very same query repeated - the shape that catches anything remembered between calls
+    let mut followups: std::collections::VecDeque<(Op, Origin)> = std::collections::VecDeque::new();
     for _ in 0..nops {
+        if let Some((op, origin)) = followups.pop_front() {
+            m.apply(&op);
+            ops.push((op, origin));
+            continue;
+        }
         let filled: Vec<usize> = (0..nslots).filter(|&s| m.slots[s].is_some()).collect();
         let any = |g: &mut Gen| g.r.below(nslots as u64) as usize;
         let op = if elem == ElemKind::Nested && g.r.chance(1, 8) {
@@ -481,6 +489,29 @@ pub fn generate_c15(run_seed: u64, thorough: bool, faults: bool) -> ListDesc {
             o => o,
         };
         m.apply(&op);
+        // plan the follow-up
+        if g.r.chance(1, 4) {
+            let target = match &op {
+                Op::Eq { a, b, .. } => Some(if g.r.chance(2, 3) { *b } else { *a }),
+                Op::Contains { h, .. } | Op::Index { h, .. } | Op::Get { h, .. } | Op::Len { h } | Op::ForFind { h, .. } => Some(*h),
+                _ => None,
+            };
+            if let Some(t) = target {
+                if let Some(id) = m.slots[t] {
+                    let len = m.heap.lists[id].len() as u64;
+                    let mutation = if len >= 2 && g.r.chance(2, 3) {
+                        let i = g.r.below(len);
+                        let j = (i + 1 + g.r.below(len - 1)) % len;
+                        Op::Swap { h: t, i, j }
+                    } else {
+                        Op::Push { h: t, v: fresh(&mut g) }
+                    };
+                    let mo = if g.r.chance(1, 2) { Origin::Script } else { Origin::Rust };
+                    followups.push_back((mutation, mo));
+                    followups.push_back((op.clone(), origin.clone()));
+                }
+            }
+        }
         ops.push((op, origin));
     }
     let mut fl = Vec::new();
